@@ -121,6 +121,8 @@ def gen_cases(tier, seed):
              "gflags": (["--isolate"] if nroots >= 2 and rng.random() < 0.4 else []) + (["-S"] if rng.random() < 0.2 else []),
              "seam_seed": rng.randint(1, 10**9)}
         c["roots_last"] = rng.random() < 0.5
+        c["tz"] = rng.choice([None, None, "IST-5:30", "NST3:30", "CET-1", "LINT-14", "NPT-5:45"])
+        c["tz2"] = rng.choice([None, None, "UTC0", "PST8", "IST-5:30"])
         if rng.random() < 0.15:
             c["gflags"] = c["gflags"] + ["--exclude", rng.choice(["", " ", "''", "a b", "#", "x=y"])]   # odd words in the argument vector
         if kind == "roundtrip" and rng.random() < 0.4:
@@ -168,10 +170,12 @@ def shrink(case):
         c = dict(case); c["gflags"] = []; yield c
 
 
-def _env(case):
-    if case.get("cfg"):
-        return gen.cfg_env(case["cfg"])
-    return {"FCLONES_VERIF_DEVICES": "/=ssd:simroot"}
+def _env(case, reader=False):
+    e = gen.cfg_env(case["cfg"]) if case.get("cfg") else {"FCLONES_VERIF_DEVICES": "/=ssd:simroot"}
+    tz = case.get("tz2") if (reader and case.get("tz2")) else case.get("tz")
+    if tz:
+        e = dict(e, TZ=tz)      # writer and reader may live in different time zones (POSIX TZ strings)
+    return e
 
 
 def _gargs(case, fmt):
@@ -251,7 +255,7 @@ def run_case(case):
             expect_seq = [p for g in repj.groups for p in g.paths]
             finals = {}
             for fmt, g in (("text", gt), ("json", gj)):
-                dry = ops.dedupe(rd, "remove", g.out, extra=["--dry-run"], env=env, now_ns=T0_NS + 3600 * 10**9, seed=5, threads_env=1)
+                dry = ops.dedupe(rd, "remove", g.out, extra=["--dry-run"], env=_env(case, True), now_ns=T0_NS + 3600 * 10**9, seed=5, threads_env=1)
                 traces.append(dry.trace)
                 if dry.rc != 0:
                     V("report-accepted", "%s report written by group is rejected by remove --dry-run (rc=%s)" % (fmt, dry.rc), dry)
@@ -274,6 +278,27 @@ def run_case(case):
                 traces.append(real.trace)
                 finals[fmt] = (inv_brief(inventory(rd.world)), real.rc)
                 rebuild()
+                # the header timestamp as the READER understood it: make one listed file look modified in 2100
+                # and read the instant back from the "was updated after <timestamp>" warning
+                if expect_seq and not case.get("hcwd"):
+                    import re as _re
+                    from datetime import datetime as _dt
+                    victim = expect_seq[0]
+                    try:
+                        os.utime(victim, ns=(4102444800 * 10**9, 4102444800 * 10**9), follow_symlinks=False)
+                        os.utime(victim, ns=(4102444800 * 10**9, 4102444800 * 10**9))
+                    except OSError:
+                        pass
+                    ts = ops.dedupe(rd, "remove", g.out, extra=["--dry-run"], env=_env(case, True), now_ns=T0_NS + 3600 * 10**9, seed=5, threads_env=1)
+                    m_ = _re.search(rb"updated after (\d{4}-\d\d-\d\d \d\d:\d\d:\d\d\.\d{3} [+-]\d{4})", ts.err)
+                    h_ = _re.search(rb"# Timestamp: (\d{4}-\d\d-\d\d \d\d:\d\d:\d\d\.\d{3} [+-]\d{4})", gt.out)
+                    if m_ and h_:
+                        f_ = "%Y-%m-%d %H:%M:%S.%f %z"
+                        a_, b_ = _dt.strptime(m_.group(1).decode(), f_), _dt.strptime(h_.group(1).decode(), f_)
+                        if a_ != b_:
+                            V("header-timestamp-read-back", "%s report: written %s, read back as %s (an instant %s away)" % (
+                                fmt, h_.group(1).decode(), m_.group(1).decode(), abs(a_ - b_)), ts)
+                    rebuild()
             if len(finals) == 2 and (set(finals["text"][0]) != set(finals["json"][0]) or finals["text"][1] != finals["json"][1]):
                 V("formats-equivalent", "remove leaves different trees for the text and the JSON report of the same run: only-text %s only-json %s" % (
                     sorted(set(finals["text"][0]) - set(finals["json"][0]))[:6], sorted(set(finals["json"][0]) - set(finals["text"][0]))[:6]))
